@@ -125,7 +125,7 @@ func execCLI(ctx context.Context, fx *respFixture, ctl, bin, ws string, s *Scena
 	}
 	msg := strings.ReplaceAll(strings.TrimSpace(res.Stderr), fx.root, "<root>")
 	msg = strings.ReplaceAll(msg, ctl, "<ctl>")
-	if strings.Contains(res.Stderr, "VERIF-PLUGIN-FAILURE") || strings.Contains(res.Stderr, "could not find protoc plugin") || strings.Contains(res.Stderr, "exec format") || strings.Contains(res.Stderr, "permission denied") {
+	if pluginDidNotRun(res.Stderr) {
 		return true, msg, fmt.Errorf("plugin did not run: %s", msg)
 	}
 	return true, fmt.Sprintf("exit %d: %s", res.ExitCode, msg), nil
@@ -199,7 +199,7 @@ func runCLIResponses(r *evid.Run, scratch, bin string, names []string) {
 			}
 			r.Eval(1)
 			s.Outcome = outcome
-			good := fx.judge(s, failed, st, func(sig, what string) { r.Violate(sig, what, s) })
+			good := fx.judge(s, failed, st, reporter(r, s))
 			stage := "ok"
 			if failed {
 				stage = "error"
@@ -274,7 +274,7 @@ func runCLIRelVsAbs(r *evid.Run, scratch, bin string) {
 				}
 				r.Eval(1)
 				s.Outcome = outcome
-				if !fx.judge(s, failed, st, func(sig, what string) { r.Violate(sig, what, s) }) {
+				if !fx.judge(s, failed, st, reporter(r, s)) {
 					if fx, err = newRespFixture(fx.root); err != nil {
 						r.Incomplete("harness: cannot rebuild fixture: " + err.Error())
 						return
@@ -442,7 +442,9 @@ func runCLIRequests(r *evid.Run, scratch, bin string, layoutList [][]string) {
 			if res.ExitCode != 0 {
 				localFailed++
 				filterErr := cfgs[0].filtered() || cfgs[1].filtered()
-				if !filterErr {
+				if pluginDidNotRun(res.Stderr) {
+					r.Incomplete("harness: plugin did not run: " + strings.ReplaceAll(res.Stderr, dir, "<dir>"))
+				} else if !filterErr {
 					r.Violate("C/requests/generate-failed", "buf generate failed on a valid module and template: "+strings.ReplaceAll(res.Stderr, dir, "<dir>"), mk())
 				}
 				return
@@ -530,3 +532,13 @@ func runCLIRequests(r *evid.Run, scratch, bin string, layoutList [][]string) {
 
 // cliNames is the probe-name alphabet of the CLI response runs.
 func cliNames(maxComponents int) []string { return c13.Paths(maxComponents) }
+
+// pluginDidNotRun recognises failures of the harness's own plugin process (never buf's verdict on a response).
+func pluginDidNotRun(stderr string) bool {
+	for _, pat := range []string{"VERIF-PLUGIN-FAILURE", "could not find protoc plugin", "exec format error", "fork/exec", "resource temporarily unavailable", "text file busy", "too many open files", "cannot allocate memory"} {
+		if strings.Contains(stderr, pat) {
+			return true
+		}
+	}
+	return false
+}
